@@ -237,6 +237,39 @@ def run_scenario(item):
         else:
             note('client_tasks_still_alive', n=len(started - dropped))
         time.sleep(0.03)
+        # ---- epilogue: with everyone gone the whole capacity must be there again, and whatever connection a
+        # newcomer gets must be clean (this is where a hand-off that the scripted steps did not reach happens)
+        if w.alive():
+            probes = []
+            for i in range(pool_size):
+                try:
+                    z = Client(w.port, name='Z%d' % i, timeout=4.0)
+                except OSError:
+                    note('capacity_lost', probe=i, why='connect failed')
+                    continue
+                probes.append(z)
+                w.log.add(ev='client_connected', client=z.name)
+                r1 = z.query('BEGIN')
+                r2 = z.query('SELECT 1') if r1.end == 'Z' else r1
+                if r2.end != 'Z' or any('could not get connection' in (e.get('M') or '') for e in r1.errors + r2.errors):
+                    note('capacity_lost', probe=i, of=pool_size, got=(r1.brief() + ' / ' + r2.brief())[:160])
+                else:
+                    for e in r2.echoes():
+                        w.log.add(ev='result', client=z.name, n=e.get('n') if e.get('c') == z.name else z.serial,
+                                  echo_c=e.get('c', ''), echo_n=e.get('n', -1))
+            for z in probes:
+                z.query('COMMIT')
+                w.log.add(ev='closing', client=z.name)
+                z.close()
+            deadline = time.time() + 3.0
+            while time.time() < deadline:
+                hooks = w.hooks()
+                started = {h['pid'] for h in hooks if h['ev'] == 'startup_ok'}
+                dropped = {h['pid'] for h in hooks if h['ev'] == 'client_drop' and not h.get('cancel')}
+                if started <= dropped:
+                    break
+                time.sleep(0.01)
+            time.sleep(0.03)
         out['alive'] = w.alive()
         hooks = w.hooks()
         be_events = w.log.snapshot()
